@@ -21,6 +21,7 @@ import Genq.Model.InputClosure
 import Genq.Model.CodecIn
 import Genq.Model.Errors
 import Genq.Model.Lines
+import Genq.Model.DirApply
 open Lean
 namespace Genq.Driver
 
@@ -408,6 +409,27 @@ def opConv (op : String) (j : Json) : Except String Json := do
     let t ← parseTRef (← j.getObjVal? "type")
     return Json.mkObj [("type", gtStr (Conv.convertType cfg kind o t)), ("omitempty", Conv.omitemptyAfter cfg kind o t),
       ("goAlias", o.alias), ("typename", o.typename)]
+  | "conv.accepts" =>
+    -- does the generator accept this combination of options (Model/DirApply.lean)?
+    let kindOf (s : String) : Except String Conv.Kind := match s with
+      | "scalar" => pure Conv.Kind.scalar | "enum" => pure Conv.Kind.enum | "object" => pure Conv.Kind.object
+      | "interface" => pure Conv.Kind.interface | "union" => pure Conv.Kind.union | "input" => pure Conv.Kind.input
+      | k => throw s!"kind {k}"
+    let k ← kindOf (← getStr j "kind")
+    let b (n : String) : Bool := (optBool j n).getD false
+    let node := parseDir ((j.getObjVal? "node").toOption.getD (Json.mkObj []))
+    let opd := parseDir ((j.getObjVal? "opDir").toOption.getD (Json.mkObj []))
+    let ford := parseDir ((j.getObjVal? "forDir").toOption.getD (Json.mkObj []))
+    let target : DirApply.Target ←
+      if b "isVariable" then do
+        let fields ← match j.getObjVal? "inputFields" with
+          | .ok (.arr a) => a.toList.mapM fun e => do
+              pure ({ nonNull := (optBool e "nonNull").getD false, hasDefault := (optBool e "hasDefault").getD false } : DirApply.InField)
+          | _ => pure []
+        pure (DirApply.Target.var k (b "nonNull") (b "boundInConfig") fields)
+      else pure (DirApply.Target.field k (b "boundInConfig") (b "hasFragments") (b "onlySpread"))
+    let v := DirApply.verdict (b "structRefs") ((j.getObjValAs? String "optional").toOption.getD "" == "pointer") target node ford opd
+    return Json.mkObj [("accepts", v == .ok), ("verdict", toString (repr v))]
   | _ => throw s!"unknown op {op}"
 
 partial def parseSField (j : Json) : Except String Types.SField := do
